@@ -1,17 +1,12 @@
 package sim
 
-import scalibrlog "github.com/google/osv-scalibr/log"
+import (
+	"io"
+	stdlog "log"
+)
 
-type quietLogger struct{}
-
-func (quietLogger) Errorf(string, ...any) {}
-func (quietLogger) Error(...any)          {}
-func (quietLogger) Warnf(string, ...any)  {}
-func (quietLogger) Warn(...any)           {}
-func (quietLogger) Infof(string, ...any)  {}
-func (quietLogger) Info(...any)           {}
-func (quietLogger) Debugf(string, ...any) {}
-func (quietLogger) Debug(...any)          {}
-
-// Quiet silences the library's logger (arguments are still evaluated by the callers).
-func Quiet() { scalibrlog.SetLogger(quietLogger{}) }
+// Quiet silences the library's log output without replacing its logger: the library's
+// DefaultLogger (which writes through Go's standard logger) stays in play, only the standard
+// logger's output is discarded.  Replacing the logger would take real code - which runs
+// concurrently with the walk in the status-printing goroutine - out of the simulation.
+func Quiet() { stdlog.SetOutput(io.Discard) }
